@@ -677,7 +677,17 @@ func ruleAtom7(c *Ctx, r *Reporter) {
 		}
 		isOrdered := func(v ssa.Value) bool { return resolveHelperValue(v) == ssa.Value(ordered) }
 		seenIf := map[*ssa.If]bool{}
-		coneInstrs(fn, func(in ssa.Instruction) {
+		walk := allInstrs
+		direct := false
+		allInstrs(fn, func(in ssa.Instruction) {
+			if call, ok := in.(*ssa.Call); ok && isHelper(staticFn(&call.Call)) {
+				direct = true
+			}
+		})
+		if !direct {
+			walk = coneInstrs // the item loop moved into a private helper of the method
+		}
+		walk(fn, func(in ssa.Instruction) {
 			call, ok := in.(*ssa.Call)
 			if !ok || !isHelper(staticFn(&call.Call)) {
 				return
